@@ -131,7 +131,7 @@ def _sel(doc, d, p):
             continue
         k = n["k"]
         if k == "typename":
-            out.append({"k": "typename"})
+            out.append({"k": "typename", "alias": n.get("alias") or None, "sel": _sel(doc, d, i)})
         elif k == "spread":
             out.append({"k": "spread", "name": n["name"]})
         elif k == "inline":
